@@ -199,7 +199,7 @@ func init() {
 	registerProp(&propDef{ID: "C13", Rules: rulesC13, Floor: 7,
 		Expl: "Presence and coverage only: per round and step the two coordinate equalities between the bit-selected claimed evaluation and the running evaluation; after the steps the two equalities against the final polynomial at the folded point; the invertibility assertions; coverage of all rounds. The domain point, combination and interpolation formulas are not decided.",
 		Rule: "one obligation per equality coordinate / assertion / loop coverage"})
-	registerProp(&propDef{ID: "C16", Rules: func(cx *Ctx) []Obligation { return append(rulesC16(cx), rulesConfigCoverage(cx, "C16/O16.3")...) }, Floor: 5,
+	registerProp(&propDef{ID: "C16", Rules: func(cx *Ctx) []Obligation { return append(append(rulesC16(cx), rulesConfigCoverage(cx, "C16/O16.3")...), ruleC16Windows(cx)...) }, Floor: 6,
 		Expl: "Presence and coverage only: for every challenge round (full-range loop, count = Config.NumChallenges) an extension equality (both coordinates) between the vanishing value (depending on gates, wires, sigmas, Z, Z(next), partial products, public-input hash, challenges) and Z_H·quotient (from QuotientPolys via ReduceWithPowers); the L₀ division asserts existence. The formula is not decided.",
 		Rule: "one obligation per coordinate and assertion"})
 	registerProp(&propDef{ID: "C05", Rules: withC06(func(cx *Ctx) []Obligation { return append(append(rulesC05(cx), rulesW3(cx, "C05")...), rulesMagnitude(cx, "C05")...) }), Floor: 40,
